@@ -29,4 +29,5 @@ META = dict(
 
 def jobs(tier):
     return (common.add_samples_jobs(tier, ['C01']) +
-            common.add_bound_jobs(tier, ['C01']))
+            common.add_bound_jobs(tier, ['C01']) +
+            common.run_jobs(tier, ['C01'], which=('end', 'bound', 'empty')))
